@@ -266,6 +266,25 @@ Section WithHash.
                            end) ;;
     lift (annotate_node raw).
 
+  (* traverse / traverse_from as a walk uses them: a partial traversal yields the simulated
+     node (exc.simulated_node); the flag says whether that happened *)
+  Definition annotate_or_simulate (r : item * nibbles) : M (hnode * bool) :=
+    let '(node, remaining) := r in
+    a <- lift (annotate_node node) ;;
+    match remaining with
+    | [] => ret (a, false)
+    | _ :: _ => sim <- lift (simulated_node a remaining) ;; ret (sim, true)
+    end.
+
+  Definition traverse_sim (trie_key : nibbles) : M (hnode * bool) :=
+    t <- getst ;;
+    r <- _traverse (t_root t) trie_key ;;
+    annotate_or_simulate r.
+
+  Definition traverse_from_sim (parent_raw : item) (trie_key : nibbles) : M (hnode * bool) :=
+    r <- _traverse_from (traverse_fuel trie_key) parent_raw trie_key trie_key ;;
+    annotate_or_simulate r.
+
   (* ---------------- writing ---------------- *)
   Definition blank17 : list item := repeat BLANK 17.
 
